@@ -172,6 +172,7 @@ def store (d : Dec) (q : UInt8) (off : Nat) (jh : JHdr) (body : Bytes) : Except 
                     fragSize := body.length, hdr := some jh }
   else if off ≠ d.fragSize then
     if !d.firstRecv then .error (d, .nonStart) else .error (d.resetFragments, .err)
+  else if body.length = 0 then .error (d.resetFragments, .err)   -- header-only fragment
   else
     .ok { d with fragSize := d.fragSize + body.length, fragments := d.fragments ++ [body] }
 
